@@ -1,6 +1,6 @@
 //@ unit constraint_vm
 //@ serves C06 C04
-//@ must_verify VM::op_build_constraint VM::op_check_constraint VM::push VM::pop Val::from lemma_width_mono lemma_arm_step
+//@ must_verify VM::op_build_constraint VM::op_check_constraint VM::push VM::pop Val::from lemma_width_mono lemma_arm_step lemma_arm_bad lemma_arms_init
 //@ include prelude/head.rs
 use std::rc::Rc;
 use vstd::std_specs::iter::IteratorSpec;
@@ -134,18 +134,29 @@ pub open spec fn arm_built(t: ConstraintArmType, vals: StackSeq, off: int, arm: 
         ConstraintArmType::Exact => arm matches ConstraintValArm::Exact(e) && (!(*vals[off].0 is C) ==> *e == ir_of(*vals[off].0)),
     }
 }
+// (opaque to the solver outside the three lemmas below: keeps the loop proof small and stable)
+#[verifier::opaque]
 pub open spec fn all_arms_ok(ts: Seq<ConstraintArmType>, vals: StackSeq, upto: int) -> bool {
     forall|k: int| 0 <= k < upto ==> arm_ok(#[trigger] ts[k], vals, width(ts, k) as int)
 }
+#[verifier::opaque]
 pub open spec fn all_arms_built(ts: Seq<ConstraintArmType>, vals: StackSeq, arms: Seq<ConstraintValArm>, upto: int) -> bool {
     forall|k: int| 0 <= k < upto ==> arm_built(ts[k], vals, width(ts, k) as int, #[trigger] arms[k])
 }
+pub proof fn lemma_arms_init(ts: Seq<ConstraintArmType>, vals: StackSeq, arms: Seq<ConstraintValArm>)
+    ensures all_arms_ok(ts, vals, 0), all_arms_built(ts, vals, arms, 0)
+{ reveal(all_arms_ok); reveal(all_arms_built); }
+pub proof fn lemma_arm_bad(ts: Seq<ConstraintArmType>, vals: StackSeq, i: int)
+    requires 0 <= i < ts.len(), !arm_ok(ts[i], vals, width(ts, i) as int)
+    ensures !all_arms_ok(ts, vals, ts.len() as int)
+{ reveal(all_arms_ok); }
 pub proof fn lemma_arm_step(ts: Seq<ConstraintArmType>, vals: StackSeq, arms: Seq<ConstraintValArm>, arm: ConstraintValArm, i: int)
     requires 0 <= i < ts.len(), arms.len() == i,
         all_arms_ok(ts, vals, i), all_arms_built(ts, vals, arms, i),
         arm_ok(ts[i], vals, width(ts, i) as int), arm_built(ts[i], vals, width(ts, i) as int, arm),
     ensures all_arms_ok(ts, vals, i + 1), all_arms_built(ts, vals, arms.push(arm), i + 1)
 {
+    reveal(all_arms_ok); reveal(all_arms_built);
     let a2 = arms.push(arm);
     assert forall|k: int| 0 <= k < i + 1 implies arm_built(ts[k], vals, width(ts, k) as int, #[trigger] a2[k]) by {
         if k < i { assert(a2[k] == arms[k]); }
@@ -157,7 +168,10 @@ pub open spec fn build_contract(ts: Seq<ConstraintArmType>, pos: Position, old_v
     let base = n - w;
     let vals = old_vm.stack@.subrange(base, n);
     &&& frame(old_vm, new_vm)
+    // Err exactly when some range arm's bounds are not (int|NULL, int|NULL) or (float|NULL, float|NULL) with a bound present
     &&& (r is Ok) == all_arms_ok(ts, vals, ts.len() as int)
+    // the operands are consumed either way
+    &&& r is Err ==> new_vm.stack@ == old_vm.stack@.take(base)
     &&& r is Ok ==> {
         &&& new_vm.stack@.len() == base + 1
         &&& new_vm.stack@.subrange(0, base) =~= old_vm.stack@.subrange(0, base)
@@ -240,7 +254,15 @@ use super::*;
             proof { lemma_width_mono(arm_types@, it.index as int + 1, arm_types@.len() as int); }
 //@   >>>
 //@   after "values.reverse();" <<<
-        proof { assert(values@ =~= vals); }
+        proof { assert(values@ =~= vals); lemma_arms_init(arm_types@, vals, arms@); }
+//@   >>>
+//@   before "return Err(Error::new(" <<<
+                            proof {
+                                let c = width(arm_types@, it2.index as int) as int;
+                                assert(range_bound(*start_val, *end_val) is None);
+                                assert(start_val == vals[c].0 && end_val == vals[c + 1].0);
+                                lemma_arm_bad(arm_types@, vals, it2.index as int);
+                            }
 //@   >>>
 //@   before "let (start_val, _) = val_iter.next().unwrap();" <<<
                     proof { lemma_width_mono(arm_types@, it2.index as int + 1, arm_types@.len() as int); }
